@@ -26,14 +26,21 @@ fn distinfo_model(d: &Distinfo) -> Model {
     }
 }
 
+const FINDING: &str = "distinfo-names-path-equality";
+
 fn check_text(t: &mut Tally, text: &[u8]) -> bool {
     t.evals += 1;
     t.validated += 1;
-    let want = md::parse(text);
+    // the statement is about files, checksums and sizes; the RCS Id line is C10's
+    let strip = |mut m: Model| {
+        m.rcsid = None;
+        m
+    };
+    let want = strip(md::parse(text));
     let case = || json!({"text": bytes_json(text)});
     match guard(|| {
         let d = Distinfo::from_bytes(text);
-        let m = distinfo_model(&d);
+        let m = strip(distinfo_model(&d));
         // the typed lookups must agree with the lists
         let mut lookups_ok = true;
         for f in &m.distfiles {
@@ -45,7 +52,10 @@ fn check_text(t: &mut Tally, text: &[u8]) -> bool {
         (m, lookups_ok)
     }) {
         Ok((got, lookups_ok)) => {
-            if got != want {
+            if got != want && got == strip(md::parse_with(text, md::NameEq::PathComponents)) && RUN_FINDING_OPEN.load(std::sync::atomic::Ordering::Relaxed) {
+                t.known(FINDING, case);
+                false
+            } else if got != want {
                 t.violation(Violation::new("text", case(), json!(format!("{:?}", want)), json!(format!("{:?}", got)), "recorded files/checksums/sizes differ from: every recognised line under exactly its name, first-appearance order, checksums in line order, patches apart"));
                 false
             } else if !lookups_ok {
@@ -77,6 +87,31 @@ fn alphabet() -> Vec<Vec<u8>> {
     v.push(b"Size (f.tgz) = many bytes".to_vec());
     v.push(b"garbage line here".to_vec());
     v.push(b"$NetBSD: distinfo,v 1.1 $".to_vec());
+    v
+}
+
+static RUN_FINDING_OPEN: std::sync::atomic::AtomicBool = std::sync::atomic::AtomicBool::new(false);
+
+/// Lines added to the alphabet for a second, shallower enumeration: hash words that are not
+/// lower-case hex, truncated and malformed relatives of recognised lines, unparsable sizes,
+/// near-miss algorithm names, names that are equal as paths but not as bytes.
+fn extra_lines() -> Vec<Vec<u8>> {
+    let mut v: Vec<Vec<u8>> = vec![];
+    for l in [
+        "SHA1 (f.tgz) = ABCdef", "SHA256 (f.tgz) = Zz+/=", "MD5 (d/f.tgz) = 0X1F",
+        "SHA1", "MD5 (f.tgz)", "SHA1 (f.tgz) =", "Size (f.tgz) =", "Size (f.tgz)", "SHA1 f.tgz = x", "Size", "SHA1 (f.tgz) x ab", "Size (f.tgz) : 7 bytes", "SHA1 (f.tgz = x", "SHA1 f.tgz) = x", "SHA1 ( f.tgz ) = x",
+        "Size (f.tgz) = -1 bytes", "Size (f.tgz) = 7x bytes", "Size (f.tgz) = 0x10 bytes", "Size (f.tgz) = 1e3 bytes", "Size (f.tgz) = \u{663} bytes", "Size (f.tgz) = 18446744073709551616 bytes", "Size (f.tgz) = 7.0 bytes",
+        "SHA-1 (f.tgz) = x", "SHA1x (f.tgz) = x", "SHA3 (f.tgz) = x", "XSHA1 (f.tgz) = x", "SIZE (f.tgz) = 7 bytes", "Sizes (f.tgz) = 7 bytes",
+        "SHA1 (d//f.tgz) = c3", "Size (d/./f.tgz) = 9 bytes", "SHA1 (f.tgz/) = c4", "SHA1 (./f.tgz) = c5",
+        "SHA1 () = e0",
+    ] {
+        v.push(l.as_bytes().to_vec());
+    }
+    v.push(format!("SHA512 (f.tgz) = {}", "A1b2".repeat(50)).into_bytes());
+    v.push(b"\xa0SHA1 (f.tgz) = hi".to_vec());
+    v.push(b"SHA1\xa0(f.tgz) = hi".to_vec());
+    v.push(b"SHA1 (f.tgz)\x85= hi".to_vec());
+    v.push(b"SHA1 (f.tgz) = \xff\xfe".to_vec());
     v
 }
 
@@ -115,6 +150,7 @@ fn replay(doc: &Value) -> Option<Violation> {
 
 fn main() {
     let run = Run::from_args("C11");
+    RUN_FINDING_OPEN.store(run.finding_open(FINDING), std::sync::atomic::Ordering::Relaxed);
     if let Some(doc) = run.replay_case() {
         run.finish_replay(replay(doc), replay(doc));
     }
@@ -129,7 +165,7 @@ fn main() {
          grouper. Non-trivial = texts mentioning at least two distinct files, byte-sweep names \
          containing a byte >= 0x80, classifier names containing 'patch-'.",
     );
-    run.assume("names in path-normal form; lines carry all four fields; 'emul-patch-*' (the only '-patch-' sharing its '-' with 'emul-') is undecided by the statement and skipped");
+    run.assume("one Size line per name in the deep enumeration; 'emul-patch-*' (the only '-patch-' sharing its '-' with 'emul-') is undecided by the statement and skipped");
     run.assume("reference classifier/grouper: mc/core/src/model/distinfo.rs");
 
     // (a)
@@ -162,6 +198,28 @@ fn main() {
         }
         t.sample(run.seed, s.iter().fold(1u64, |a, x| a * 23 + *x as u64), || json!({"text": bytes_json(&text)}));
     });
+
+    // (a2) the base alphabet plus the extra lines, shallower
+    {
+        let mut alpha2 = alphabet();
+        alpha2.extend(extra_lines());
+        let n2 = run.pick(3, 4);
+        run.bound(format!("(a2) all {} sequences of <= {} lines over {} lines (base alphabet + non-hex hash words, truncated / malformed relatives of recognised lines, unparsable sizes, near-miss algorithm names, names equal as paths only)", seqs::count(alpha2.len(), n2), n2, alpha2.len()));
+        seqs::par_seqs(&run, "C11(a2)", alpha2.len(), n2, 2, |_| false, |s, t| {
+            let mut text = vec![];
+            for i in s {
+                text.extend_from_slice(&alpha2[*i]);
+                text.push(b'\n');
+            }
+            if check_text(t, &text) {
+                t.outcome("text/extended-alphabet");
+                t.nontrivial += 1;
+            }
+            if s.len() <= 2 && !text.is_empty() {
+                check_text(t, &text[..text.len() - 1]);
+            }
+        });
+    }
 
     // scale: long texts interleaving many files (first-appearance order and per-file
     // line order must survive any amount of interleaving)
@@ -199,7 +257,7 @@ fn main() {
 
     // (b)
     let mut names: Vec<Vec<u8>> = vec![];
-    for b in 1u16..=255 {
+    for b in 0u16..=255 {
         let b = b as u8;
         if b == b' ' || (0x09..=0x0d).contains(&b) || b == b'/' {
             continue;
@@ -222,7 +280,12 @@ fn main() {
         let sz = [b"Size (".as_slice(), name, b") = 42 bytes"].concat();
         let before = b"SHA1 (neighbour-one.tgz) = 11\n".to_vec();
         let after = b"\nSize (neighbour-two.tgz) = 2 bytes\nSHA1 (patch-neighbour) = 33\n".to_vec();
-        for body in [ck.clone(), sz.clone(), [ck.clone(), b"\n".to_vec(), sz.clone()].concat(), [b" \t".to_vec(), ck.clone()].concat()] {
+        // the swept bytes also in front of the line and in place of a field separator: the line
+        // is then not a recognised one (its first field is no algorithm name), or - for an ASCII
+        // blank - still is; the model decides, the neighbours must be untouched either way
+        let lead = [name.as_slice(), b"SHA256 (lead.tgz) = 0123abcd"].concat();
+        let mid = [b"SHA256".as_slice(), name, b"(mid.tgz) = 0123abcd"].concat();
+        for body in [ck.clone(), sz.clone(), [ck.clone(), b"\n".to_vec(), sz.clone()].concat(), [b" \t".to_vec(), ck.clone()].concat(), lead, mid] {
             let text = [before.clone(), body, after.clone()].concat();
             t.transitions += 1;
             if check_text(t, &text) {
